@@ -285,7 +285,7 @@ class Tx(BaseTx):
         else:
             refs: set[tuple[bytes, int]] = set()
             for tx_in in self.txs_in:
-                if tx_in.previous_hash == ZERO32:
+                if tx_in.is_coinbase():
                     raise ValidationFailureError("prevout is null")
                 pair = (tx_in.previous_hash, tx_in.previous_index)
                 if pair in refs:
@@ -392,13 +392,13 @@ class Tx(BaseTx):
         tx.set_unspents do not match the authenticated transactions, a
         ValidationFailureError is raised.
         """
-        tx_hashes = set((tx_in.previous_hash for tx_in in self.txs_in))
+        tx_hashes = set(
+            (tx_in.previous_hash for tx_in in self.txs_in if not tx_in.is_coinbase())
+        )
 
         # build a local copy of the DB
         tx_lookup: dict[bytes, Any] = {}
         for h in tx_hashes:
-            if h == ZERO32:
-                continue
             the_tx = tx_db.get(h)
             if the_tx is None:
                 raise KeyError("hash id %s not in tx_db" % b2h_rev(h))
@@ -410,7 +410,7 @@ class Tx(BaseTx):
             tx_lookup[h] = the_tx
 
         for idx, tx_in in enumerate(self.txs_in):
-            if tx_in.previous_hash == ZERO32:
+            if tx_in.is_coinbase():
                 continue
             txs_out = tx_lookup[tx_in.previous_hash].txs_out
             if tx_in.previous_index > len(txs_out):
